@@ -30,9 +30,13 @@ META = {
     "password/token/cookie the answer is 403 (405 for a method the route lacks), nothing changes and no flow data is in the reply; with valid "
     "credentials no non-safe request changes state without a valid XSRF token or when marked cross-site; exploration because each request is "
     "independent of the others (state is rebuilt whenever a request changed it)",
-    "rule": "a case is (url, method, credential kind, xsrf kind, Sec-Fetch-Site, password mode); distinct = distinct tuple; non-trivial = the request "
-    "reaches a handler the application defines for that method (i.e. with valid credentials it is not a 405), or it is the WebSocket upgrade",
+    "rule": "a case is (url, method, credential kind, xsrf kind, Sec-Fetch-Site, password mode), or a password-rotation history (sequence of "
+    "web_password settings applied at run time, after each of which the current password logs in and every earlier password is tried again); "
+    "distinct = distinct tuple / history; non-trivial = the request reaches a handler the application defines for that method (i.e. with valid "
+    "credentials it is not a 405), or it is the WebSocket upgrade, or it is a rotation history",
     "assumptions": [
+        "password rotation histories: random token, two plaintext passwords, argon2 hashes of two passwords and a second hash of the first, up to 2 (quick) / 3 "
+        "(thorough) rotations; a session cookie issued before a rotation stays a valid session cookie and is not judged",
         "the static asset route tornado adds for static_path and unknown URLs (404) are outside the claim: they carry no flow data and change no state",
         "a refusal is any status >= 400 with unchanged state; the exact status 403 is only demanded for requests lacking valid credentials (405 accepted)",
         "Sec-Fetch-Site: only 'cross-site' is required to be refused; 'same-site' and unknown values are enumerated and their outcome recorded, not judged",
@@ -403,11 +407,141 @@ def run_case(case, t: Tally, verbose=False):
         drop(pw)  # rebuild the application and its state for the next case
 
 
+# ---------------------------------------------------------------------------
+# histories: the password is rotated at run time (options.update -> WebAuth.configure, what `set web_password=...`,
+# the options editor and config reloads do); every password that was valid earlier must be refused afterwards
+
+ROT_CONFIGS = ["random", "plain1", "plain2", "argonA", "argonB", "argonA2"]
+ROT_ROUTES = [("GET", "/flows", "Flows"), ("POST", "/clear", "ClearAll"), ("PUT", "/options", "Options"), ("GET", "/updates", "ClientConnection")]
+_ROT_HASHES: dict = {}
+
+
+def rot_value(name):
+    """(web_password option value, the password a user types or None for the generated token)"""
+    if name == "random":
+        return "", None
+    if name.startswith("plain"):
+        pw = "plain-Passw0rd-" + name[-1]
+        return pw, pw
+    pw = {"argonA": "argon-Passw0rd-A", "argonB": "argon-Passw0rd-B", "argonA2": "argon-Passw0rd-A"}[name]
+    if name not in _ROT_HASHES:
+        import argon2
+
+        # fresh random salt per hash: argonA and argonA2 are different hashes of the same password (the salt is data, not a verdict input)
+        _ROT_HASHES[name] = argon2.PasswordHasher(time_cost=1, memory_cost=8, parallelism=1).hash(pw)
+    return _ROT_HASHES[name], pw
+
+
+def rot_mode(name):
+    return "random" if name == "random" else ("plain" if name.startswith("plain") else "argon2")
+
+
+def gen_rotations(maxlen):
+    """every sequence of <= maxlen password configurations applied after start-up (which is 'random'); adjacent ones differ"""
+    out = []
+
+    def rec(prefix):
+        if prefix:
+            out.append(list(prefix))
+        if len(prefix) >= maxlen:
+            return
+        for c in ROT_CONFIGS:
+            if c != (prefix[-1] if prefix else "random"):
+                rec(prefix + [c])
+
+    rec([])
+    return out
+
+
+def rot_request(s: Sut, method, url, handler, form, password):
+    from urllib.parse import urlencode
+
+    headers, q = [], []
+    if form == "bearer":
+        headers.append(("Authorization", "Bearer " + password))
+    else:
+        q.append(("token", password))
+    if method not in SAFE:
+        headers += [("Cookie", "_mitmproxy_xsrf=" + XSRF_A), ("X-XSRFToken", XSRF_A)]
+    if handler == "ClientConnection":
+        headers += WS_HEADERS
+    ctype, body = attack_body(handler, method)
+    if ctype:
+        headers.append(("Content-Type", ctype))
+    return s.wd.request(method, url + ("?" + urlencode(q) if q else ""), headers, body)
+
+
+def run_rotation(case, t: Tally, verbose=False):
+    drop("random")
+    s = sut("random")
+    try:
+        known = [("random", s.wd.auth._password)]  # every password that has been valid so far: (mode, password)
+        steps = ["random"] + list(case["rotation"])
+        for i, name in enumerate(steps):
+            if i > 0:
+                value, pw = rot_value(name)
+                s.wd.run(lambda: s.wd.master.options.update(web_password=value))
+                cur = pw if pw is not None else s.wd.auth._password  # the generated token is what mitmweb prints in its URL
+                known.append((rot_mode(name), cur))
+                s.pristine = s.snapshot()
+            cur_mode, cur = known[-1]
+            # the current password works (and is thereby "seen" by whatever the implementation remembers)
+            for form in ("bearer", "token"):
+                r = rot_request(s, "GET", "/flows", "Flows", form, cur)
+                if r.status == 200 and MARK.encode() in r.body:
+                    t.add("rotation_current_password_accepted")
+                else:
+                    t.note("current %s password not accepted via %s" % (cur_mode, form))
+            last = i == len(steps) - 1
+            if not last and not verbose:
+                continue  # the state after a prefix is judged by the shorter history
+            olds = []
+            for mode, pw in known[:-1]:
+                if pw != cur and (mode, pw) not in olds:
+                    olds.append((mode, pw))
+            for old_mode, old in olds:
+                for form in ("bearer", "token"):
+                    for method, url, handler in ROT_ROUTES:
+                        r = rot_request(s, method, url, handler, form, old)
+                        changed = s.diff(s.snapshot())
+                        resp_text = r.body + b"\n" + ("\n".join("%s: %s" % kv for kv in r.headers)).encode("utf-8", "replace")
+                        leaks = [m for m in (MARK, FLOW_ID, TCP_ID, DNS_ID) if m.encode() in resp_text]
+                        st = r.status
+                        result = "no-response" if st is None else ("processed" if (st < 400 or changed) else ("refused-5xx" if st >= 500 else "refused-4xx"))
+                        feats = {"route": handler, "method": method, "method_class": "safe" if method in SAFE else "unsafe", "cred": "old-password-" + form,
+                                 "xsrf": "absent" if method in SAFE else "valid-header", "sfs": "absent", "pw": cur_mode, "result": result,
+                                 "rotation": old_mode + ">" + cur_mode}
+                        obs = {"status": st, "changed": changed, "leaks": leaks, "body": r.body[:100], "crashed": r.crashed, "history": steps[: i + 1]}
+                        if verbose:
+                            print("  after %r: old %s password via %s on %s %s -> %s %s" % (steps[: i + 1], old_mode, form, method, url, st, "CHANGED " + str(changed) if changed else ""))
+                        t.judge("unauthenticated_is_403", st in (403, 405) and r.crashed is None, feats, case, "an earlier password is refused with 403 after the rotation", obs)
+                        t.judge("no_state_change", not changed, feats, case, "state snapshot unchanged", obs)
+                        t.judge("no_flow_data_in_body", not leaks, feats, case, "no flow data in the reply", obs)
+                        if handler == "ClientConnection":
+                            t.judge("websocket_refused", st == 403 and not r.detached, feats, case, "403, no upgrade", obs)
+                        t.outcome(["rotation", old_mode, cur_mode, form, handler, st, bool(changed)])
+                        t.add("rotation_old_password_requests")
+                        if changed or r.detached:
+                            raise _Dirty()
+        t.case(case if len(case["rotation"]) == 2 else None, nontrivial=True, key=case)
+    except _Dirty:
+        t.case(case, nontrivial=True, key=case)  # an old password got through and changed state: judged above, history ends here
+    finally:
+        drop("random")
+
+
+class _Dirty(Exception):
+    pass
+
+
 def chunk_fn(chunk):
     t = Tally()
     try:
         for c in chunk:
-            run_case(c, t)
+            if "rotation" in c:
+                run_rotation(c, t)
+            else:
+                run_case(c, t)
     finally:
         for k in list(_DRIVERS):
             drop(k)
@@ -489,10 +623,19 @@ def run(ctx):
         gc.collect()
         gc.freeze()
         nproc = par.NPROC if thorough else min(par.NPROC, 6)
-        par.pmap_tally(chunk_fn, cases, ctx.tally, nchunks=nproc * 2, nproc=nproc)
+        rots = [{"rotation": r} for r in gen_rotations(ctx.pick(2, 3))]
+        for name in ROT_CONFIGS:
+            rot_value(name)  # hashes are made once, before the fork
+        ctx.bounds["password_rotation_histories"] = {
+            "count": len(rots), "max_rotations": ctx.pick(2, 3), "configurations": ROT_CONFIGS,
+            "per_step": "current password via bearer+token accepted; every earlier password x {bearer, token} x %r must be refused" % ([m + " " + u for m, u, _ in ROT_ROUTES],),
+        }
+        ctx.log("%d password rotation histories" % len(rots))
+        par.pmap_tally(chunk_fn, cases + rots, ctx.tally, nchunks=nproc * 2, nproc=nproc)
         t = ctx.tally
         ctx.log("counters: %s" % dict(sorted(t.extra.items())))
-        for k in ("authorised_request_changed_state", "authorised_request_returned_flow_data", "authorised_websocket_upgraded"):
+        for k in ("authorised_request_changed_state", "authorised_request_returned_flow_data", "authorised_websocket_upgraded",
+                  "rotation_current_password_accepted", "rotation_old_password_requests"):
             if not t.extra.get(k):
                 raise HarnessError("vacuous: no case with %s" % k)
     finally:
@@ -501,7 +644,10 @@ def run(ctx):
 
 def replay(case, t: Tally, verbose=False):
     try:
-        run_case(case, t, verbose=verbose)
+        if isinstance(case, dict) and "rotation" in case:
+            run_rotation(case, t, verbose=verbose)
+        else:
+            run_case(case, t, verbose=verbose)
     finally:
         for k in list(_DRIVERS):
             drop(k)
